@@ -6,7 +6,11 @@ use oq3_syntax::ast as synast; // Syntactic AST
 use oq3_syntax::ParseOrErrors;
 use oq3_syntax::SyntaxError;
 use oq3_syntax::TextRange;
+#[cfg(feature = "oq3_verif")]
+use crate::verif_seam::{env, fs, PathBufIsFile};
+#[cfg(not(feature = "oq3_verif"))]
 use std::env;
+#[cfg(not(feature = "oq3_verif"))]
 use std::fs;
 use std::io;
 use std::path::{Path, PathBuf};
